@@ -59,6 +59,36 @@ Mix(e) ==
                    /\ (toneOff = 1 /\ noiseOff = 1 /\ Bit(volReg, 4) = 0) => seen = amps
     IN Judge(ok, "mix", [regs |-> r, seen |-> e.seen])
 
+\* register histories: "for any sequence of AY register writes ... arbitrary interleavings of register writes with sample
+\* generation". Every tick of every channel: the level is 0 or the amplitude its registers define (fixed volume, or the
+\* envelope value when bit 4 is set), and it is the amplitude whenever the mixer switches both tone and noise off.
+\* The envelope position is defined by the statement from the last write of R13 as long as the period registers have not
+\* been touched since; otherwise any envelope value is accepted.
+HistStep(acc, o) ==
+    IF o[1] = "w" THEN
+        [acc EXCEPT !.regs[o[2] + 1] = o[3], !.k = @ + 1,
+                    !.n = IF o[2] = 13 THEN 0 ELSE IF o[2] \in {11, 12} THEN -1 ELSE @]
+    ELSE
+        LET ticks == o[2]
+            r == acc.regs
+            shape == r[14] % 16
+            ep == EnvPeriod(r[12], r[13])
+            Bad(i) == \E c \in 0..2 :
+                LET toneOff == Bit(r[8], c)   noiseOff == Bit(r[8], c + 3)   volReg == r[9 + c]
+                    lvl == ticks[i][c + 1]
+                    amp == IF Bit(volReg, 4) = 1
+                           THEN (IF acc.n >= 0 THEN EnvValue(shape, ep, acc.n + i) ELSE lvl)
+                           ELSE 2 * (volReg % 16) + 1
+                IN ~(lvl \in 0..31 /\ (lvl = amp \/ (lvl = 0 /\ ~(toneOff = 1 /\ noiseOff = 1))))
+            badTicks == {i \in DOMAIN ticks : Bad(i)}
+        IN [acc EXCEPT !.n = IF @ >= 0 THEN @ + Len(ticks) ELSE @, !.k = @ + 1,
+                       !.bad = IF badTicks = {} \/ @ # <<>> THEN @
+                               ELSE LET i == CHOOSE x \in badTicks : \A y \in badTicks : x <= y
+                                    IN <<acc.k + 1, i, ticks[i], r, acc.n>>]
+Hist(e) ==
+    LET fin == FoldLeft(HistStep, [regs |-> [k \in 1..14 |-> 0], n |-> -1, k |-> 0, bad |-> <<>>], e.ops)
+    IN Judge(fin.bad = <<>>, "hist", [first |-> fin.bad])
+
 Dac(e) == Judge(\A v \in 1..15 : e.amps[v + 1] > e.amps[v], "dac", [amps |-> e.amps])
 Pan(e) ==
     LET cls == PanClass(e.mode, e.ch)
@@ -85,7 +115,7 @@ PortRun(ops, i, sel, regs) ==
 AyPort(e) == Judge(PortRun(e.ops, 1, 0, [k \in 1..16 |-> 0]), "ayport", [ops |-> e.ops])
 
 Step(e) ==
-    CASE e.ev = "tone" -> Tone(e) [] e.ev = "noise" -> Noise(e) [] e.ev = "env" -> Env(e) [] e.ev = "mix" -> Mix(e)
+    CASE e.ev = "tone" -> Tone(e) [] e.ev = "noise" -> Noise(e) [] e.ev = "env" -> Env(e) [] e.ev = "mix" -> Mix(e) [] e.ev = "hist" -> Hist(e)
       [] e.ev = "dac" -> Dac(e) [] e.ev = "pan" -> Pan(e) [] e.ev = "freq" -> Freq(e) [] e.ev = "ayport" -> AyPort(e)
 
 TraceNext == l <= Len(Rec) /\ Step(Rec[l]) /\ l' = l + 1
